@@ -221,6 +221,9 @@ class Client:
                     resp += line + CRLF
                     elements += self.__split_line(line)
                 self.__response_lines += [elements]
+                cpt += 1
+                if nblines != -1 and cpt == nblines:
+                    break
                 continue
             if not len(line):
                 continue
